@@ -176,7 +176,13 @@ class Worker:
                 made.append(di.description_variant(sites, rng, payload, contexts, None))
         elif category == "description-trailing":
             contexts = self.contexts_for(payload_name, payload, di.TRAILING_CONTEXTS)
-            for context in contexts[:2]:
+            # one plain-text ending (the reST-escaped form keeps characters such as the
+            # backslash in the rendered text) and one ending inside a literal
+            preferred = ["trail-spaced-escaped", "trail-spaced", "trail-glued-escaped", "trail-glued"]
+            chosen = [c for c in preferred if c in contexts][:1]
+            if "trail-literal" in contexts:
+                chosen.append("trail-literal")
+            for context in chosen:
                 made.append(di.description_variant(sites, rng, payload, [], context))
         elif category == "constraint-id":
             if not re.search(r"\s", payload):
@@ -427,6 +433,13 @@ class Worker:
                 for (rel, oracle, code), _ in counted.items():
                     where = rel.rsplit("/", 2)[-2] if "/" in rel else ""
                     failure = by_key[(rel, oracle, code)][1]
+                    if oracle == "g++-syntax" and code in ("expected-token", "misplaced-definition"):
+                        # Without a payload there is no text that could have derailed the
+                        # parser; g++'s "expected ..." then stems from a semantic problem
+                        # (e.g. an undeclared template), which is not C20.
+                        chk.count("cpp_baseline_parse_diagnostics_not_judged")
+                        chk.hist("cpp_baseline_parse_diagnostics_not_judged", f"{rel}: {failure.message[:80]}")
+                        continue
                     chk.violation(
                         f"{target}/{oracle}/no-payload/{slug(code)}@{slug(where) or 'root'}",
                         self.witness(variant, target, rel, failure),
@@ -639,8 +652,33 @@ def worker(args) -> Dict[str, Any]:
     return chk.export()
 
 
+def replay(argv, path: str) -> int:
+    """Re-run the single meta-model of a replay file and say whether it still fails."""
+    import json
+
+    data = json.loads(pathlib.Path(path).read_text())
+    witness = data["witness"]
+    w = Worker([a for a in argv if not a.startswith("--replay") and a != path], 0)
+    try:
+        variant = Variant(
+            witness.get("base_model", "replay"), witness.get("payload", "plain"),
+            witness.get("category", "no-payload"), witness["meta_model"],
+            witness.get("category") == "no-payload",
+        )
+        w.process([variant])
+    finally:
+        w.tools.close()
+    reproduced = data["mechanism"] in w.chk.violations or data["mechanism"] in w.chk.known_hits
+    print(f"REPLAY property=C20 mechanism={data['mechanism']} "
+          f"{'reproduced' if reproduced else 'not reproduced'}; "
+          f"observed={sorted(w.chk.violations) + sorted(w.chk.known_hits)}")
+    return 1 if reproduced else 0
+
+
 def main(argv) -> int:
     chk = harness.Check("C20", "exploration", RULE, argv)
+    if chk.replay:
+        return replay(list(argv), chk.replay)
     n_shards = int(os.environ.get("VF_C20_WORKERS", "8"))
     with concurrent.futures.ProcessPoolExecutor(max_workers=n_shards) as pool:
         jobs = [pool.submit(worker, (list(argv), s, n_shards)) for s in range(n_shards)]
